@@ -149,7 +149,22 @@ def r1(ctx):
             ctx.ob(f.qual, "hp-missing-value:%s" % st_.text()[:50], okm, f.loc(st_.stmt), "a cleared HP is written as '.', which the decoder maps to 'no phase'" if okm else "%s can store None into the String field HP: htslib writes an empty value that _extract_HP_phase cannot decode in multi-sample files" % st_.text()[:60])
     hpv = util.single_def(dec.node, "hp")
     tests = [n for n in walk_function(dec.node) if isinstance(n, ast.If) and any(isinstance(b, ast.Return) and (b.value is None or (isinstance(b.value, ast.Constant) and b.value.value is None)) for b in n.body)]
-    okd = bool(tests) and "hp == ('.',)" in u(tests[0].test) and "hp is None" in u(tests[0].test)
+    okd = False
+    if tests and hpv is not None:
+        # values that send the decoder to `return None`: disjuncts `hp is X`, `hp == X`, `hp in (X, Y, ...)`
+        cands = set()
+        disj = tests[0].test.values if isinstance(tests[0].test, ast.BoolOp) and isinstance(tests[0].test.op, ast.Or) else [tests[0].test]
+        for d_ in disj:
+            if isinstance(d_, ast.Compare) and len(d_.ops) == 1:
+                l_, r_ = d_.left, d_.comparators[0]
+                if isinstance(d_.ops[0], (ast.Is, ast.Eq)):
+                    if u(l_) == "hp":
+                        cands.add(u(r_))
+                    elif u(r_) == "hp":
+                        cands.add(u(l_))
+                elif isinstance(d_.ops[0], ast.In) and u(l_) == "hp" and isinstance(r_, (ast.Tuple, ast.List, ast.Set)):
+                    cands |= {u(x) for x in r_.elts}
+        okd = {"None", "('.',)"} <= cands
     ctx.ob(dec.qual, "hp-missing-value-decoded", okd, dec.loc(), "the decoder treats None and ('.',) as 'no HP phase'" if okd else "the decoder does not map a missing HP value to 'no phase'")
     # slot binding
     init = ctx.func(W + ".__init__")
@@ -329,8 +344,10 @@ def r4(ctx):
             if names_ and (vtxt in ("read_map.get(%s.block_id)" % ph, "read_map[%s.block_id]" % ph) or stores_block):
                 block_lists.update(names_)
     for nm in list(block_lists):
+        stored = any(isinstance(n_, ast.Assign) and any(u(t) == "read_map[%s.block_id]" % ph for t in n_.targets) and u(n_.value) == nm for n_ in ast.walk(loop))
         for s_, v_ in util.assignments_to(fi.node, nm):
-            if not (isinstance(v_, ast.AST) and (u(v_) in ("read_map.get(%s.block_id)" % ph, "read_map[%s.block_id]" % ph) or any(u(t) == "read_map[%s.block_id]" % ph for t in getattr(s_, "targets", [])))):
+            fresh = isinstance(v_, ast.List) and not v_.elts and stored  # `reads = []` ... `read_map[block] = reads`
+            if not (isinstance(v_, ast.AST) and (fresh or u(v_) in ("read_map.get(%s.block_id)" % ph, "read_map[%s.block_id]" % ph) or any(u(t) == "read_map[%s.block_id]" % ph for t in getattr(s_, "targets", [])))):
                 block_lists.discard(nm)
     need = {("%s.is_homozygous()" % gt, False): "homozygous calls are skipped", ("%s in input_variant_set" % var, True): "variants not requested are skipped", ("None is %s" % ph, False): "unphased calls are skipped"}
     for c in adds:
@@ -348,7 +365,7 @@ def r4(ctx):
         else:
             # r = Read(...); r.add_variant(...); read_map[block].append(r) in index order
             rdef = util.single_def(inner, recv) if ok_loop else None
-            app = [x for x in ast.walk(inner) if isinstance(x, ast.Call) and isinstance(x.func, ast.Attribute) and x.func.attr == "append" and u(x.func.value) == "read_map[%s.block_id]" % ph and x.args and u(x.args[0]) == recv] if ok_loop else []
+            app = [x for x in ast.walk(inner) if isinstance(x, ast.Call) and isinstance(x.func, ast.Attribute) and x.func.attr == "append" and (u(x.func.value) == "read_map[%s.block_id]" % ph or (isinstance(x.func.value, ast.Name) and x.func.value.id in block_lists)) and x.args and u(x.args[0]) == recv] if ok_loop else []
             ok_recv = rdef is not None and isinstance(rdef, ast.Call) and u(rdef.func) == "Read" and len(app) == 1
             branch = "new-block"
         ok = ok_loop and ok_recv and args[:2] == ["%s.position" % var, a_v]
